@@ -574,6 +574,115 @@ def options_failure(c, o):
                 tag, j["mean"], j["lower"], k["mean"], k["lower"]))
     return None
 
+
+# --------------------------------------------------------------------------------------------------
+# Gauss quadrature after a Lanczos breakdown; analytic prior term in the resolved trace-log space
+# --------------------------------------------------------------------------------------------------
+
+def gauss_cases(ctx):
+    rng = ctx.rng(3406)
+    out = []
+    for i in range(8 if ctx.quick else 40):
+        n = int(rng.integers(3, 7))
+        kind = ["diag", "repeated", "dense"][i % 3]
+        A = gen_spd(rng, n, kind)
+        vs = []
+        for _ in range(3):
+            v = rng.integers(-3, 4, size=n).astype(float)
+            if kind == "diag":
+                v[rng.integers(0, n)] = 0.0
+            if not np.any(v):
+                v[0] = 1.0
+            vs.append(v.tolist())
+        out.append({"kind": "gauss", "A": A.tolist(), "vs": vs, "order": n + (2 if i % 2 else 0)})
+    return out
+
+
+def run_gauss(c):
+    import jax.numpy as jnp
+    from nifty.re.num import lanczos as lz
+    A = np.array(c["A"])
+    n = A.shape[0]
+    Aj = jnp.asarray(A)
+    Ts, per = [], []
+    for v in c["vs"]:
+        T, _ = lz.lanczos_tridiag(lambda x: Aj @ x, jnp.asarray(np.array(v, dtype=float)), order=int(c["order"]))
+        T = np.asarray(T)
+        Ts.append(T)
+        g = float(lz._gauss_unit(jnp.asarray(np.diagonal(T)), jnp.asarray(np.diagonal(T, 1)), jnp.log, clip_eigs=False,
+                                 eig_clip=1e-14, clip_eigs_max=None, nan_to_num=False, discard_eigs_below=1e-14))
+        per.append(g)
+    est = float(lz.stochastic_logdet_from_lanczos(jnp.asarray(np.array(Ts)), n))
+    w, U = np.linalg.eigh(A)
+    logA = U @ np.diag(np.log(w)) @ U.T
+    want = [float((np.array(v) / np.linalg.norm(v)) @ logA @ (np.array(v) / np.linalg.norm(v))) for v in c["vs"]]
+    return {"Ts": Ts, "per": per, "est": est, "want": want, "n": n}
+
+
+def gauss_checks(c, o):
+    out = []
+    for T, g in zip(o["Ts"], o["per"]):
+        if not math.isfinite(g):
+            out.append(("gauss", "false"))
+            continue
+        ev, U = np.linalg.eigh(T)
+        nodes = C.clist(["(%s, %s, %s)" % (C.cq(float(e)), C.cq(float(U[0, i])), C.cq(float(np.log(e)) if e >= 1e-14 else 0.0))
+                         for i, e in enumerate(ev)])
+        out.append(("gauss", "gauss_case %s %s %s %s" % (C.cq(1e-14), C.cq(TOL), nodes, C.cq(g))))
+    return out
+
+
+def gauss_failure(c, o):
+    for k, (g, w) in enumerate(zip(o["per"], o["want"])):
+        if not math.isfinite(g) or abs(g - w) > 1e-8 * max(1.0, abs(w)):
+            return ("gauss-breakdown", "e1^T log(T) e1 of the zero-padded tridiagonal (order %d, dimension %d, start vector %d) is %r, v^T log(A) v = %.12g" % (
+                c["order"], o["n"], k, g, w))
+    want = o["n"] * float(np.mean(o["want"]))
+    if not math.isfinite(o["est"]) or abs(o["est"] - want) > 1e-8 * max(1.0, abs(want)):
+        return ("gauss-breakdown", "stochastic_logdet_from_lanczos (order %d, dimension %d) gives %r, exact value for these probes %.12g" % (
+            c["order"], o["n"], o["est"], want))
+    return None
+
+
+def analytic_cases(ctx):
+    rng = ctx.rng(3407)
+    out = []
+    for (nd, ns) in ([(3, 5), (5, 3)] if ctx.quick else [(3, 5), (5, 3), (4, 4), (2, 6)]):
+        m = gen_model(rng, nd=nd, ns=ns)
+        for sp in ("signal", "data", "auto"):
+            out.append({"kind": "analytic", "model": m, "space": sp})
+    return out
+
+
+def run_analytic(c):
+    import tempfile
+    m = c["model"]
+    nd, ns = np.array(m["R"]).shape
+    with tempfile.TemporaryDirectory(dir=scratch()) as tmp:
+        o = run_elbo(m, 1, outdir=tmp, compute_all=True, analytic_prior_term=True, trace_log_space=c["space"], metric_jit=False)
+        fd, fs = os.path.join(tmp, "metric_data_eigenvalues.npy"), os.path.join(tmp, "metric_signal_eigenvalues.npy")
+        is_data = os.path.exists(fd)
+        ev = np.load(fd if is_data else fs)
+    Lam = o["Lam"]
+    return {"is_data": bool(is_data), "ev": ev, "stats": o["stats"], "logZ": o["logZ"], "trinv": float(np.trace(np.linalg.inv(Lam))),
+            "nd": nd, "ns": ns}
+
+
+def analytic_checks(c, o):
+    sp = {"signal": "SpSignal", "data": "SpData", "auto": "SpAuto"}[c["space"]]
+    return [("space", "space_case %s %d %d %s" % (sp, o["nd"], o["ns"], C.cbool(o["is_data"]))),
+            ("trace-inv", "trace_inv_case %s %d %d %s %s %s" % (sp, o["nd"], o["ns"], C.cq(TOL), cql(o["ev"]), C.cq(o["stats"]["trace_inv_exact"])))]
+
+
+def analytic_failure(c, o):
+    st = o["stats"]
+    tag = "analytic_prior_term=True, trace_log_space=%r, %d data / %d parameters" % (c["space"], o["nd"], o["ns"])
+    if abs(st["trace_inv_total"] - o["trinv"]) > 1e-8 * max(1.0, o["trinv"]):
+        return ("elbo-analytic-prior", "%s: Tr(Lambda^-1) is reported as %.12g, exact %.12g" % (tag, st["trace_inv_total"], o["trinv"]))
+    if abs(st["elbo_mean"] - o["logZ"]) > 1e-8 * max(1.0, abs(o["logZ"])):
+        return ("elbo-analytic-prior", "%s: ELBO %.12g differs from the closed-form log-evidence %.12g" % (tag, st["elbo_mean"], o["logZ"]))
+    return None
+
 # --------------------------------------------------------------------------------------------------
 # direct oracle
 # --------------------------------------------------------------------------------------------------
@@ -614,6 +723,10 @@ def direct_failure(c):
         return slq_elbo_failure(c, run_slq_elbo(c))
     if k == "options":
         return options_failure(c, run_options(c))
+    if k == "gauss":
+        return gauss_failure(c, run_gauss(c))
+    if k == "analytic":
+        return analytic_failure(c, run_analytic(c))
     if k == "slq":
         return _direct_slq(c)
     if k == "elbo_full":
@@ -734,7 +847,8 @@ class C34(C.Check):
         checks, meta, dist = [], [], {}
         self.cases = []
         nontriv = set()
-        cases = [c for c in ctx.corpus() if c.get("kind") in ("lanczos", "elbo", "resume", "slq_elbo", "options")] + lanczos_cases(ctx) + elbo_cases(ctx) + resume_cases(ctx) + slq_elbo_cases(ctx) + option_cases(ctx)
+        cases = [c for c in ctx.corpus() if c.get("kind") in ("lanczos", "elbo", "resume", "slq_elbo", "options", "gauss", "analytic")] + lanczos_cases(ctx) + elbo_cases(ctx) + resume_cases(ctx) + slq_elbo_cases(ctx) + option_cases(ctx) + gauss_cases(ctx) + analytic_cases(ctx)
+        self.extra_obs = []
         self.resume_obs = []
         self.opt_obs = []
         self.slq_obs = []
@@ -745,6 +859,16 @@ class C34(C.Check):
                     cs = lanczos_checks(c, o)
                     nst = int(np.sum(o["beta"] > 0))
                     nontriv.add(("lanczos", len(c["v"]), c["order"], nst < c["order"]))
+                elif c["kind"] == "gauss":
+                    o = run_gauss(c)
+                    cs = gauss_checks(c, o)
+                    self.extra_obs.append((c, o, gauss_failure))
+                    nontriv.add(("gauss", o["n"], c["order"], tuple(int(np.sum(np.abs(np.diagonal(T, 1)) > 0)) for T in o["Ts"])))
+                elif c["kind"] == "analytic":
+                    o = run_analytic(c)
+                    cs = analytic_checks(c, o)
+                    self.extra_obs.append((c, o, analytic_failure))
+                    nontriv.add(("analytic", c["space"], o["nd"], o["ns"], o["is_data"]))
                 elif c["kind"] == "options":
                     o = run_options(c)
                     cs = options_checks(c, o)
@@ -790,7 +914,7 @@ class C34(C.Check):
         self.bad_cases = [meta[i][1] for i in bad]
         res.coverage.update({
             "evaluations": len(checks), "distinct_nontrivial": len(nontriv),
-            "rule": "SPD matrices B B^T + D with small-integer entries, diagonal ones, ones with two distinct eigenvalues (early breakdown), n = 2..6, integer start vectors (also inside invariant subspaces), order 1..n: alphas, basis vectors and every residual norm against the exact model; linear Gaussian models (3-5 data, 4-6 parameters), k < all eigenvalues in 1-3 batches: ELBO samples, lower_error, batch sizes fresh and resumed; resume suite: one-go run with saved eigensystem, then a resumed run from EVERY split point 1..k-1, nifty.re in signal and data space and nifty.cl, k < all and k = all eigenvalues: eigsh batch sizes against the model's schedule, exactly; distinct = (kind, n, order, breakdown) resp. (kind, k, batches) resp. (impl, space, k, batches, split, observed sizes); options: compute_all x verbose x n_eigenvalues below/at/above the relevant dofs x n_batches in nifty.re and nifty.cl: number of eigenvalues that entered (saved eigensystem) or ValueError against effective_n; pure-SLQ ELBO (n_eigenvalues = 0) on non-square and square models in both spaces with the default and an over-large order: the order handed to _slq_gauss_radau against clamp_order, exactly",
+            "rule": "SPD matrices B B^T + D with small-integer entries, diagonal ones, ones with two distinct eigenvalues (early breakdown), n = 2..6, integer start vectors (also inside invariant subspaces), order 1..n: alphas, basis vectors and every residual norm against the exact model; linear Gaussian models (3-5 data, 4-6 parameters), k < all eigenvalues in 1-3 batches: ELBO samples, lower_error, batch sizes fresh and resumed; resume suite: one-go run with saved eigensystem, then a resumed run from EVERY split point 1..k-1, nifty.re in signal and data space and nifty.cl, k < all and k = all eigenvalues: eigsh batch sizes against the model's schedule, exactly; distinct = (kind, n, order, breakdown) resp. (kind, k, batches) resp. (impl, space, k, batches, split, observed sizes); gauss: _gauss_unit with discard_eigs_below on tridiagonals zero-padded after a breakdown (diagonal / degenerate matrices, order = n and n + 2) against gauss_sum over the eigen-decomposition; analytic: analytic_prior_term with trace_log_space signal / data / auto on models with fewer and with more data than parameters: resolved space and trace_inv_exact from the saved eigenvalues; options: compute_all x verbose x n_eigenvalues below/at/above the relevant dofs x n_batches in nifty.re and nifty.cl: number of eigenvalues that entered (saved eigensystem) or ValueError against effective_n; pure-SLQ ELBO (n_eigenvalues = 0) on non-square and square models in both spaces with the default and an over-large order: the order handed to _slq_gauss_radau against clamp_order, exactly",
             "samples": [_js({k: v for k, v in c.items() if not k.startswith("_")}) for c in self.cases[:2]],
             "input_distribution": dist, "disagreements": len(bad), "exhaustive": False,
         })
@@ -802,8 +926,13 @@ class C34(C.Check):
         todo = [c for c in getattr(self, "bad_cases", [])]
         n_hints = len(todo)
         todo += [c for c in ctx.corpus() if c.get("kind") in ("slq", "elbo_full")]
-        todo += [c for c in getattr(self, "cases", []) if c.get("kind") not in ("resume", "slq_elbo", "options")]
+        todo += [c for c in getattr(self, "cases", []) if c.get("kind") not in ("resume", "slq_elbo", "options", "gauss", "analytic")]
         n_res = 0
+        for c, o, fail in getattr(self, "extra_obs", []):
+            n_res += 1
+            f = fail(c, o)
+            if f:
+                res.add_failing({"fn": c["kind"], "class": f[0]}, f[1], _js(c))
         for c, o in getattr(self, "opt_obs", []):
             n_res += len(o["rows"])
             f = options_failure(c, o)
